@@ -11,14 +11,18 @@ EXTENDS PipelineLazy, MC_PipelineCall
 CONSTANTS MaxEv,     \* number of evaluate() calls per handle (2: Evaluate ; ReEvaluate)
           AllKw,     \* TRUE: every keyword subset (valid cuts, surplus, missing); FALSE: valid cuts only
           MaxHandles,\* handles built one after the other inside one construct_dag() block (1: no sharing)
-          Modes      \* calling conventions explored: subset of {"call", "full"}
+          Modes,     \* calling conventions explored: subset of {"call", "full"}
+          UserCacheOn \* TRUE: every description also as a pipeline with a user cache (first function / all functions cached)
 
 ---------------------------------------------------------------------------
 (* Part 1: export.  One state per description. *)
 (* the universe can be split over several TLC processes (Shard of NShards) by a cheap hash of the description *)
 DescHash(dd) == Len(dd.funcs[1].params) + 3 * Len(dd.funcs[2].params) + Len(dd.funcs[2].bound)
                 + (IF NF(dd) > 2 THEN 7 * Len(dd.funcs[3].params) + 2 * Len(dd.funcs[3].bound) ELSE 0)
-LUInit == \E dd \in {x \in Universe : Valid(x) /\ DescHash(x) % NShards = Shard} : LazyInit(dd)
+WithCache(dd, S) == IF S = {} THEN dd
+                    ELSE [funcs |-> [i \in FIdx(dd) |-> [dd.funcs[i] EXCEPT !.cache = (i \in S)]], cache_type |-> "simple"]
+CacheChoice(dd)  == IF UserCacheOn THEN {{1}, FIdx(dd)} ELSE {{}}
+LUInit == \E dd \in {x \in Universe : Valid(x) /\ DescHash(x) % NShards = Shard} : \E S \in CacheChoice(dd) : LazyInit(WithCache(dd, S))
 LUNext == UNCHANGED allvars
 LUSpec == LUInit /\ [][LUNext]_allvars
 LEmit  == PrintT(<<"CASE", ToJson([desc |-> d,
@@ -33,7 +37,13 @@ InvDepEdgesStatic == \A o \in AllOutputs(d) : \A C \in Cuts(d, o) :
 (* Part 2: behaviours *)
 KwSets(o) == IF AllKw THEN SUBSET Names(d) ELSE Cuts(d, o)
 (* (the guards phase = ... in front of the quantifiers only keep TLC from enumerating the cuts in every state) *)
-LNext == \/ (phase = "idle" /\ \E o \in AllOutputs(d) : \E C \in KwSets(o) : \E m \in Modes, g \in BOOLEAN :
+(* with a user cache the model bounds the history: a further handle only while the cache holds at most NF entries; the   *)
+(* cache may be cleared at any time (pipeline.cache.clear()), which also keeps the bounded model free of deadlocks       *)
+ClearCache == /\ ~lazy /\ phase = "idle" /\ nh = 0 /\ memo # {}
+              /\ memo' = {}
+              /\ UNCHANGED <<cvars, lazy, dag, nev, count, val, graph, nh>>
+RefHit == MayBeOld(d, kw, out, memo)
+LNext == \/ (phase = "idle" /\ Cardinality(memo) <= NF(d) /\ \E o \in AllOutputs(d) : \E C \in KwSets(o) : \E m \in Modes, g \in BOOLEAN :
                                   LBegin(o, KwOf(C), m, g))
          \/ Build \/ BuildRaiseUnused \/ BuildRaiseMissing \/ BuildRaiseOutputSupplied
          \/ EvalBegin
@@ -41,7 +51,8 @@ LNext == \/ (phase = "idle" /\ \E o \in AllOutputs(d) : \E C \in KwSets(o) : \E 
          \/ EvalReturn(Eval(d, kw, out))
          \/ EvalReturnFull(FullValue(d, kw, out))
          \/ (nev < MaxEv /\ (ReEvaluate(Eval(d, kw, out)) \/ ReEvaluateFull(FullValue(d, kw, out))))
-         \/ (graph = NoGraph /\ Graph(ReferenceGraph(d, kw, out)))
+         \/ (graph = NoGraph /\ Graph(ReferenceGraphFor(d, kw, out, RefHit)))
+         \/ ClearCache
          \/ LEnd
          \/ (nh + 1 < MaxHandles /\ LDropKeep)
          \/ CloseBlock
@@ -58,9 +69,12 @@ InvLDoneOnlyNeeded       == (lazy /\ phase \in {"built", "running"}) => done \su
 (* once evaluated, no invocation is possible any more, whatever the phase *)
 InvNoCallAfterEvaluate   == (lazy /\ nev >= 1) => \A i \in FIdx(d) : ~ENABLED LCall(i, ArgsOf(d, kw, i))
 (* a started evaluate() of a later handle of a block can complete without invoking anything that is reused *)
-InvReusedNeedNoCall      == (lazy /\ phase = "running" /\ done = Needed(d, kw, out) \ Reused) => ENABLED EvalReturnFull(FullValue(d, kw, out)) \/ ENABLED EvalReturn(Eval(d, kw, out))
+InvReusedNeedNoCall      == (lazy /\ phase = "running" /\ done = MustRun) => ENABLED EvalReturnFull(FullValue(d, kw, out)) \/ ENABLED EvalReturn(Eval(d, kw, out))
 (* a handle exists only for a defined evaluation without strictly surplus keywords (first handle of a block) *)
-InvBuiltDefined          == (lazy /\ phase \in {"built", "running"}) => (Defined(d, kw, out) /\ (nh = 0 => StrictSurplus(d, kw, out) = {}))
+InvBuiltDefined          == (lazy /\ phase \in {"built", "running"}) => (Defined(d, kw, out) /\ ((nh = 0 /\ memo = {}) => StrictSurplus(d, kw, out) = {}))
+(* with old nodes: a recorded graph never merges two functions into one node (no self-loop) and old nodes never receive edges *)
+InvOldNodesOnlySources   == (lazy /\ graph # NoGraph) => /\ \A e \in graph.edges : e[1] # e[2]
+                                                         /\ \A n \in FuncNodes(graph) : Preds(graph, n.id) = {} \/ IdxOfName(d, n.f) \notin RefHit
 
 (* sensitivity of TaskGraphOK: every single-step corruption of an accepted graph that changes the dependency      *)
 (* relation or the node set of functions is rejected                                                              *)
@@ -75,5 +89,5 @@ Mutants(g) == {DropEdge(g, e) : e \in g.edges}
               \cup {AddEdge(g, e) : e \in {ee \in Ids(g) \X Ids(g) : ee[1] # ee[2] /\ ee \notin g.edges /\ ee \notin Contracted(g)}}
               \cup {DropNode(g, x) : x \in FuncIds(g)}
               \cup {DupNode(g, x) : x \in FuncIds(g)}
-InvMutantsRejected == (lazy /\ graph # NoGraph) => \A m \in Mutants(graph) : ~TaskGraphOK(d, kw, out, m)
+InvMutantsRejected == (lazy /\ graph # NoGraph /\ memo = {}) => \A m \in Mutants(graph) : ~TaskGraphOK(d, kw, out, m)
 =============================================================================
